@@ -1300,3 +1300,5 @@ def main2():
 if __name__ == "__main__":
     main()
     main2()
+    import src2v3_reader  # work package readerT: coq/gen/Src3d.v (fails closed per item)
+    src2v3_reader.main()
